@@ -319,72 +319,6 @@ NAME_TRIPLES = [("a", "b", "c"), ("X", "Y", "Z"), ("T", "Idx", "P"), ("a1", "A",
                 ("v2", "V", "vv")]
 
 
-class NameProxy:
-    """Forwards to a Track, spelling the logical names a/b/c as the case's real names in every argument (names,
-    (name, i) keys, expression texts) and spelling listed names back."""
-
-    def __init__(self, tr, nm):
-        import re
-        object.__setattr__(self, "_tr", tr)
-        object.__setattr__(self, "_nm", dict(nm))
-        object.__setattr__(self, "_inv", {v: k for k, v in nm.items()})
-        object.__setattr__(self, "_re", re.compile(r"\b([abc])\b"))
-
-    def _n(self, x):
-        if isinstance(x, str):
-            if x in self._nm:
-                return self._nm[x]
-            return self._re.sub(lambda m: self._nm[m.group(1)], x)
-        return x
-
-    def _key(self, key):
-        if isinstance(key, tuple):
-            return tuple(self._n(k) for k in key)
-        return self._n(key)
-
-    def __getattr__(self, name):
-        return getattr(self._tr, name)
-
-    def createAnalyticalFeature(self, name, *a):
-        return self._tr.createAnalyticalFeature(self._n(name), *a)
-
-    def removeAnalyticalFeature(self, name):
-        return self._tr.removeAnalyticalFeature(self._n(name))
-
-    def updateAnalyticalFeature(self, name, *a):
-        return self._tr.updateAnalyticalFeature(self._n(name), *a)
-
-    def addAnalyticalFeature(self, f, name=None):
-        return self._tr.addAnalyticalFeature(f, self._n(name))
-
-    def getAnalyticalFeature(self, name):
-        return self._tr.getAnalyticalFeature(self._n(name))
-
-    def getListAnalyticalFeatures(self):
-        return [self._inv.get(x, x) for x in self._tr.getListAnalyticalFeatures()]
-
-    def operate(self, op, *a):
-        if isinstance(op, str):
-            return self._tr.operate(self._n(op), *a)
-        return self._tr.operate(op, *[self._n(x) for x in a])
-
-    def __getitem__(self, key):
-        return self._tr[self._key(key)]
-
-    def __setitem__(self, key, v):
-        self._tr[self._key(key)] = v
-
-    def extractSpanTime(self, *a):
-        r = self._tr.extractSpanTime(*a)
-        return NameProxy(r, self._nm) if r is not None else r
-
-    def size(self):
-        return self._tr.size()
-
-    def getObsList(self):
-        return self._tr.getObsList()
-
-
 # --------------------------------------------------------------------------
 class Runner:
     def __init__(self, size, ctx, names=0):
@@ -396,7 +330,7 @@ class Runner:
                                  t0_ms=gen.ms_from_fields(1970, 1, 2, 3, 4, 5), step_ms=1500)
         self.flags = set()
         if names:
-            self.tr = NameProxy(self.tr, dict(zip("abc", NAME_TRIPLES[names % len(NAME_TRIPLES)])))
+            self.tr = gen.NameProxy(self.tr, dict(zip("abc", NAME_TRIPLES[names % len(NAME_TRIPLES)])))
             self.flags.add("less_usual_feature_names")
             self.flags.add("names:" + "/".join(NAME_TRIPLES[names % len(NAME_TRIPLES)]))
         self.model = {}
